@@ -43,6 +43,7 @@ type Plan struct {
 	ErrAt       int  // >= 0: reads touching this offset fail with ErrSimIO
 	Seekable    bool
 	SeekFails   bool // the reader offers Seek, but it fails (a pipe or a socket behind an *os.File)
+	ErrOnce     bool // the error at ErrAt is reported once (no bytes with it); the source then works again (a read deadline, a retryable fault)
 	ErrWithData bool // the bytes just before ErrAt are returned together with the error, in one call
 	Grows       int  // > 0 (seekable readers): until the first Read, the source ends this many bytes after Start (a file still being appended to)
 	Start       int  // the reader is positioned here when handed over (bytes before it were consumed by someone else)
@@ -71,6 +72,9 @@ func (p Plan) String() string {
 		s += "+err@" + itoa(p.ErrAt)
 		if p.ErrWithData {
 			s += "(with the bytes before it)"
+		}
+		if p.ErrOnce {
+			s += "(once)"
 		}
 	}
 	if p.Start > 0 {
@@ -113,7 +117,8 @@ func GenPlan(n int, faults bool) Plan {
 			p.TruncAt = simrt.Choice("io.trunc-at", n+1)
 		case 2:
 			p.ErrAt = simrt.Choice("io.err-at", n+1)
-			p.ErrWithData = simrt.Choice("io.err-with-data", 3) == 1
+			p.ErrOnce = simrt.Choice("io.err-once", 4) == 1
+			p.ErrWithData = !p.ErrOnce && simrt.Choice("io.err-with-data", 3) == 1
 			if p.ErrWithData && simrt.Choice("io.err-at-the-end", 4) == 1 {
 				p.ErrAt = n // the connection breaks right behind the last byte, and says so along with it
 			}
@@ -187,6 +192,10 @@ func (r *Reader) Read(p []byte) (int, error) {
 	if r.off >= limit {
 		if r.plan.ErrAt >= 0 && r.plan.ErrAt <= end && r.off >= r.plan.ErrAt {
 			pIOErr.Hit()
+			if r.plan.ErrOnce {
+				pErrOnce.Hit()
+				r.plan.ErrAt = -1 // reported; the next call finds the source working
+			}
 			return 0, ErrSimIO
 		}
 		return 0, io.EOF
@@ -307,6 +316,10 @@ func (r *ReaderAt) ReadAt(p []byte, off int64) (int, error) {
 	if off >= limit {
 		if errAt >= 0 && off >= errAt {
 			pIOErr.Hit()
+			if r.plan.ErrOnce {
+				pErrOnce.Hit()
+				r.plan.ErrAt = -1
+			}
 			return 0, ErrSimIO
 		}
 		return 0, io.EOF
@@ -318,6 +331,10 @@ func (r *ReaderAt) ReadAt(p []byte, off int64) (int, error) {
 	if n < len(p) {
 		if errAt >= 0 && limit == errAt {
 			pIOErr.Hit()
+			if r.plan.ErrOnce {
+				pErrOnce.Hit()
+				r.plan.ErrAt = -1
+			}
 			return n, ErrSimIO
 		}
 		return n, io.EOF
@@ -336,6 +353,10 @@ type Writer struct {
 	FailAt int // >= 0: the write that would pass this many bytes fails
 	Calls  int64
 	Failed bool
+	// Once: the write that would pass FailAt is refused as a whole, once; what is written
+	// afterwards is accepted (a transient fault, a writer that only takes what fits)
+	Once    bool
+	Refused int
 }
 
 func NewWriter(failAt int) *Writer { return &Writer{FailAt: failAt} }
@@ -346,7 +367,13 @@ func (w *Writer) Write(p []byte) (int, error) {
 	if w.Failed {
 		return 0, ErrSimIO
 	}
-	if w.FailAt >= 0 && len(w.Buf)+len(p) > w.FailAt {
+	if w.Once && w.FailAt >= 0 && w.Refused == 0 && len(w.Buf)+len(p) > w.FailAt {
+		w.Refused++
+		pIOErr.Hit()
+		pWriteRefusedOnce.Hit()
+		return 0, ErrSimIO
+	}
+	if !w.Once && w.FailAt >= 0 && len(w.Buf)+len(p) > w.FailAt {
 		n := w.FailAt - len(w.Buf)
 		if n < 0 {
 			n = 0
@@ -365,6 +392,8 @@ var (
 	pErrWithData = simrt.NewProbe("fault.io-error-together-with-the-last-bytes")
 	pGrowingEnd  = simrt.NewProbe("io.seek-end-before-the-rest-arrived")
 	pZeroRead    = simrt.NewProbe("io.zero-length-read")
+	pWriteRefusedOnce = simrt.NewProbe("fault.one-write-refused-then-accepted")
+	pErrOnce     = simrt.NewProbe("fault.io-error-once-then-recovered")
 	pEOFWithData = simrt.NewProbe("io.eof-with-data")
 	pSeek        = simrt.NewProbe("io.seek")
 	pSeekFailed  = simrt.NewProbe("io.seek-failed")
